@@ -11,7 +11,9 @@ CHECKS = {
             "exhaustive enumeration of task outcomes x git states under the virtual kernel, and of every crash point (distinct on-disk state between two Python lines) of the last command of short histories with chained restart",
             "Outcome part: rows added = experiments whose process exited 0, with HEAD hash and dirty flag, over all small graphs x failing "
             "subsets x completion orders. Crash part: every distinct on-disk state during run/archive/restore/gc (copied = what survives "
-            "kill -9) satisfies 'row => directory + DONE marker + args/options records' after SQLite recovery, and again after one more command.",
+            "kill -9) satisfies 'row => directory + DONE marker + args/options records' after SQLite recovery, and again after one more command. "
+            "Abort part: ConductorAbort injected at every executed line, eval-breaker instruction and after every pure C call of a cond run: "
+            "every committed row belongs to a process that exited 0 and keeps its directory and finished output.",
             "Trusted: SQLite atomic commit, kernel rename/mkdir atomicity; line granularity in Conductor/shutil/json frames.",
             "DESIGN.md §4 C06, §2 E5"),
     "C10": ("exploration",
@@ -25,12 +27,13 @@ CHECKS = {
             "For each scenario and completion order the run is repeated once per line event (~3-5k points) with the abort raised at that "
             "line, as a Python signal handler would; the kernel's process table at the injection point decides which groups must receive "
             "SIGTERM; exit status/message and index rows are checked.",
-            "Trusted: line granularity (arrival inside a C call surfaces at the next line); one signal per run; finalizer frames excluded.",
+            "Granularities: executed lines (all scenarios); eval-breaker instructions and the instruction after every pure C call (first eight scenarios). One signal per run; finalizer frames excluded.",
             "DESIGN.md §4 C16, §2 E5"),
     "C08": ("model_checking",
             "exhaustive exploration of all command histories up to a depth over {run outcomes, SIGINT, restores, gc} x clock steps, each transition the real command on the real directory state",
             "All histories of depth <=3 (4) over 8 commands x 3 clock steps are executed; freshness invariants are evaluated at every "
-            "experiment spawn (observed at the virtual process layer) and recorded directories are digest-compared across every command.",
+            "experiment spawn (observed at the virtual process layer) and recorded directories are digest-compared across every command. "
+            "Interrupts: ConductorAbort injected at every line / eval-breaker instruction / after every pure C call of a cond run never deletes a recorded directory.",
             "Trusted: virtual clock/kernel seams. Bounds: depth <=3 (4), 2 experiments.",
             "DESIGN.md §4 C08"),
     "C12": ("fault_enumeration",
